@@ -106,6 +106,10 @@ func init() {
 			}
 			return Iface{}
 		},
+		// sort.Slice / sort.SliceStable: insertion sort with the caller's less function (stable;
+		// for sort.Slice one of the permitted results). The swaps are ordinary writes to the slice.
+		"sort.SliceStable": sortSliceModel,
+		"sort.Slice":       sortSliceModel,
 		"fmt.Sprint": func(x *Exec, fr *frame, fn *ssa.Function, a []Value) Value {
 			args := sliceVals(a[0])
 			var out []*Term
@@ -441,3 +445,27 @@ func (e *Engine) lookupMethodByName(t types.Type, name string) *ssa.Function {
 
 // ChanV stands for the channel returned by time.After.
 type ChanV struct{}
+
+func sortSliceModel(x *Exec, fr *frame, fn *ssa.Function, a []Value) Value {
+	it := x.asIface(a[0])
+	sl, ok := it.V.(Slice)
+	if !ok {
+		x.tpanic("sort.Slice: argument is not a slice")
+	}
+	less := a[1]
+	for i := 1; i < sl.Len; i++ {
+		for j := i; j > 0; j-- {
+			r := x.callValue(less, []Value{x.ts.BV(64, uint64(j)), x.ts.BV(64, uint64(j-1))}, fr)
+			t, _ := r.(*Term)
+			if t == nil || !x.branch(t, "sort-less") {
+				break
+			}
+			p, q := sl.Off+j, sl.Off+j-1
+			vp, vq := sl.A.E[p], sl.A.E[q]
+			x.logElemWrite(sl.A, p, vp, vq)
+			x.logElemWrite(sl.A, q, vq, vp)
+			sl.A.E[p], sl.A.E[q] = vq, vp
+		}
+	}
+	return nil
+}
